@@ -383,10 +383,17 @@ def unjson_num(x):
     return x
 
 
+class ResourceLimit(Exception):
+    """the implementation ran out of memory on a generated case: a property of the machine, not of the code's semantics (an
+    O(N x T) formulation of a count is a legitimate implementation); the case is counted as skipped, never reported"""
+
+
 def call(fn, *a, **k):
     """Call into the implementation; exceptions become data: ("exc", type name, message)."""
     try:
         return ("ok", fn(*a, **k))
+    except MemoryError as e:
+        raise ResourceLimit(str(e)[:200]) from None
     except Exception as e:  # noqa: BLE001
         return ("exc", type(e).__name__, str(e)[:200])
 
